@@ -296,7 +296,15 @@ Definition run_strip (input output : str) : verdict :=
   if negb (strip_okb input output) then 15%N
   else if str_eqb (strip_nl input) output then 0%N else 1%N.
 
+(* Stream E: command substitution of raw bytes that need not be valid UTF-8.
+   [decoded]: what the standard library's lossy decoder makes of the bytes (an
+   external component: the model of it is checked here as well). *)
+Definition run_raw (bytes : list N) (decoded value : str) : verdict :=
+  if negb (strip_okb decoded value) then 15%N
+  else if str_eqb (utf8_lossy bytes) decoded && str_eqb (subst_value bytes) value then 0%N else 1%N.
+
 Inductive case :=
+  | CRaw (bytes : list N) (decoded value : str)
   | CPipe (c : cfg) (h : list (op * obs * snap))
   | CXfer (x : xcase)
   | CScript (c : cfg) (e : dexp) (r : route) (o : sobs)
@@ -304,6 +312,7 @@ Inductive case :=
 
 Definition run_case (k : case) : verdict :=
   match k with
+  | CRaw b d v => run_raw b d v
   | CPipe c h => run_pipe c h
   | CXfer x => run_xfer x
   | CScript c e r o => run_script c e r o
